@@ -628,7 +628,9 @@ def oracle_rt(ctx, d, m, msg, r, rep):
         return False
     ref = fc.ref_encode(d, m)
     if r['bytes'] != ref:
-        bad(f'bytes differ from the layout (count field = number of instances, instances in dictionary order): '
+        reordered = sorted(r['bytes'].split(b'\x01')) == sorted(ref.split(b'\x01'))
+        bad(f'bytes differ from the layout (segment fields in assignment order; count field = number of instances, instances in '
+            f'dictionary order){" - the same fields, written in another order" if reordered else ""}: '
             f'got {r["bytes"][:80]!r} expected {ref[:80]!r}', finding='layout')
     if r['n'] != len(r['bytes']):
         bad(f'to_bytes reported {r["n"]} for {len(r["bytes"])} bytes', finding='length')
